@@ -682,6 +682,14 @@ package larking
 //@        && (forall x :: off(params) + len(queryParams) <= x && x < off(params) + len(params)
 //@              ==> same(at(params, x), at(pp, x - off(params) - len(queryParams) + off(pp))))
 
+// (the wrapper handed to encError once a compressed reply has started: its body bytes go to
+// the compressing writer, nowhere else)
+//@ func (compressedWriter).Write serves C04 partial ghost count post
+//@   count zwrites `c.z.Write(`
+//@   count rawwrites `c.ResponseWriter.Write(`
+//@   ensures [body-goes-through-the-compressor C04] zwrites == 1 && rawwrites == 0
+//@   assert atcall `c.z.Write(` [the-whole-body C04] same(arg0, b)
+
 // TrieOk: the representation invariant that makes walking the trie nil-safe.
 // Every trie node has its two maps, no child segment is nil, no variable entry is
 // nil (that part stays in TrieWf, an assumption of the matcher) and every variable
